@@ -157,6 +157,8 @@ func (t *vterm) write(p []byte) {
 			t.buf().pw = false
 			t.lineFeed()
 			i++
+		case c == 0x7f && t.utf8:
+			i++ // DEL: a terminal ignores it (no cell, no movement)
 		case c < 0x20 || c == 0x7f:
 			t.unknown = append(t.unknown, fmt.Sprintf("ctl %#x", c))
 			i++
